@@ -205,6 +205,61 @@ pub fn persist_notice_after_truncation() -> Script {
     s
 }
 
+/// C08 open finding: a network duplicate of a forwarded MsgReadIndex is registered a second time at the
+/// (by then superseded) leader; a delayed heartbeat response that acknowledged the first registration
+/// completes the quorum of the second one and releases a later local read without any heartbeat round
+/// after it was issued. Voters {1,2,3}, ReadOnlyOption::Safe, no check_quorum.
+pub fn duplicate_forwarded_read() -> Script {
+    use raft::eraftpb::MessageType as T;
+    let mut s = Script::new(cluster(vec![1, 2, 3], 3));
+    s.act(Action::Campaign { n: 1 });
+    s.settle(&[1, 2, 3]);
+    // read X issued at follower 2, forwarded to leader 1; the network duplicates the forwarded request
+    s.act(Action::ReadIndex { n: 2, id: 1 });
+    s.sync_round(2);
+    let fw: Vec<MsgKey> = s.world.flights.iter().filter(|(k, f)| k.f == 2 && k.t == 1 && f.msg.get_msg_type() == T::MsgReadIndex).map(|(k, _)| *k).collect();
+    if fw.len() != 1 {
+        return s;
+    }
+    s.act(Action::Dup { k: fw[0] });
+    s.act(Action::Deliver { k: fw[0] });
+    s.sync_round(1);
+    // heartbeats carrying X reach 2 and 3; only node 2's answer comes back now, node 3's is delayed
+    s.deliver_where(|k, m| k.f == 1 && m.get_msg_type() == T::MsgHeartbeat);
+    s.sync_round(2);
+    s.sync_round(3);
+    s.deliver_where(|k, m| k.f == 2 && k.t == 1 && m.get_msg_type() == T::MsgHeartbeatResponse);
+    s.sync_round(1);
+    s.deliver_where(|k, m| k.f == 1 && k.t == 2 && m.get_msg_type() == T::MsgReadIndexResp);
+    s.sync_round(2); // X answered at node 2
+    // node 1 is cut off; node 2 wins term 2 with node 3 and commits new entries
+    s.act(Action::Campaign { n: 2 });
+    s.sync_round(2);
+    s.drop_where(|k, m| k.f == 2 && k.t == 1 && m.get_msg_type() != T::MsgReadIndex);
+    s.deliver_where(|k, m| k.f == 2 && k.t == 3 && m.get_msg_type() == T::MsgRequestVote);
+    s.sync_round(3);
+    s.deliver_where(|k, m| k.f == 3 && k.t == 2 && m.get_msg_type() == T::MsgRequestVoteResponse);
+    s.sync_round(2);
+    s.act(Action::Propose { n: 2, id: 7, size: 8 });
+    for _ in 0..4 {
+        s.drop_where(|k, _| k.t == 1 && k.f != 3 && k.f != 2);
+        s.drop_where(|k, m| k.t == 1 && (k.f == 2 && m.get_msg_type() != T::MsgReadIndex || k.f == 3 && m.get_msg_type() != T::MsgHeartbeatResponse));
+        s.drop_where(|k, m| k.t == 1 && m.term > 1);
+        s.settle(&[2, 3]);
+    }
+    // read Y issued locally at the superseded leader 1: registered, its heartbeats are lost
+    s.act(Action::ReadIndex { n: 1, id: 2 });
+    s.sync_round(1);
+    s.drop_where(|k, _| k.f == 1);
+    // the duplicate of X arrives and is registered again behind Y; then node 3's old acknowledgement of X
+    s.deliver_where(|k, m| k.f == 2 && k.t == 1 && m.get_msg_type() == T::MsgReadIndex);
+    s.sync_round(1);
+    s.drop_where(|k, _| k.f == 1);
+    s.deliver_where(|k, m| k.f == 3 && k.t == 1 && m.get_msg_type() == T::MsgHeartbeatResponse && m.term == 1);
+    s.sync_round(1);
+    s
+}
+
 /// Scripted scenarios that every check of the property runs besides its random profile.
 pub fn for_property(id: &str) -> Vec<(&'static str, fn() -> Script)> {
     match id {
